@@ -254,9 +254,27 @@ pub fn rand_factor(r: &mut Rng, lat: &[i64]) -> i64 {
     }
 }
 
+/// Unit + Unit and Unit - Unit (81 ordered pairs each): the Unit operands of the statement
+pub fn check_unit_pairs(rep: &mut Rep) {
+    for a in UNITS {
+        for b in UNITS {
+            if !rep.tick() {
+                continue;
+            }
+            rep.class("unit-pair");
+            let (ca, cb) = (unit_ns(a), unit_ns(b));
+            judge(rep, "unit+unit", guard(|| a + b), ca + cb, None, &|| format!("{:?} + {:?}", a, b));
+            judge(rep, "unit-unit", guard(|| a - b), ca - cb, None, &|| format!("{:?} - {:?}", a, b));
+        }
+    }
+}
+
 pub fn run(cfg: &Cfg, rep: &mut Rep) {
     let lat = gen::dur_lattice();
     let flat = factor_lattice();
+    if rep.shard == 0 {
+        check_unit_pairs(rep);
+    }
     let sh = rep.shard as usize;
     let n = NSHARDS as usize;
     // exhaustive lattice part
